@@ -85,6 +85,8 @@ type Obligation struct {
 // VC accumulates one SMT context (declarations + assertions in order) for one function under
 // verification; each obligation is a prefix of that context plus a negated goal.
 type VC struct {
+	recCalled    string          // path condition under which recover() was called directly by the handler under verification
+	recVal       string          // the value recover() yields in the handler under verification (rethrows contracts)
 	usedAnchors  map[string]bool // contract anchors that matched a program point
 	prog         *Program
 	fnName       string
